@@ -203,6 +203,10 @@ def req_variants(n, rng=None, full=True):
     out = []
     for k in range(1, n + 1):
         out.append({"k": k})
+    # requests whose flattened key set is EMPTY (collections without blocks): nothing is needed, nothing may run
+    out.append({"x": []})
+    if full:
+        out.append({"x": [{"x": []}, {"x": []}]})
     for r in range(1, n + 1):
         for S in itertools.combinations(range(1, n + 1), r):
             out.append({"x": [{"k": k} for k in S]})
@@ -213,6 +217,8 @@ def req_variants(n, rng=None, full=True):
                 out.append({"x": [{"k": S[0]}, {"x": [{"k": k} for k in S[1:]]}]})
                 out.append({"x": [{"x": [{"k": k} for k in S[:-1]]}, {"k": S[-1]}]})
                 out.append({"x": [{"k": S[0]}, {"x": [{"x": [{"k": k} for k in S[1:]]}, {"k": S[0]}]}]})
+            if len(S) == 1 and full:
+                out.append({"x": [{"x": []}, {"k": S[0]}]})
     return out
 
 
